@@ -758,6 +758,142 @@ fn monitor_case(rep: &mut Report, cs: &CaseSpec, rng: &mut Rng) {
     rep.sample(|| json!({"regime": regime, "hyper": o.json(), "start": jf(x0), "kmax": cs.kmax, "stopped_early_at": stop_at, "final": jf(&exact[cs.kmax]), "worst_ratio": worst}));
 }
 
+// ---------------------------------------------------------------------------------------------
+// chained calls on one optimizer object
+//
+// "For every ... start point": the start point of a call is whatever the caller passes, in particular a point an
+// earlier call of the same object returned (`p = opt.optimize(f, &p, data, k)` in a checkpoint / progress /
+// mini-batch loop). Nothing in the published recurrences carries over from one run to the next: every call starts
+// with zero moments / zero velocity and step count 0. Each link of a chain is therefore judged as a run of its own:
+// against the reference recurrence started fresh from the link's start point (same self-calibrated tolerance as
+// every other trajectory) and bit for bit against a fresh object run from the same start (determinism).
+//   same-object          link 2 starts from the Vec link 1 returned
+//   bit-copy             link 2 starts from a bit-for-bit copy of it
+//   other-object-result  link 2 starts from what ANOTHER object's identical first run returned
+//   three-links          three links in a row on the same objective
+//   other-objective      link 2 runs a different objective (random quadratic of the same dimension) from link 1's
+//                        result, link 3 goes back to the first objective
+const CHAIN_KINDS: [&str; 5] = ["same-object", "bit-copy", "other-object-result", "three-links", "other-objective"];
+
+/// One call `lib.optimize(pr, start, k)` judged as a fresh run of `k` steps from `start`.
+#[allow(clippy::too_many_arguments)]
+fn judge_link(rep: &mut Report, regime: &str, pr: &Problem, o: &Opt, lib: &LibOpt, start: &[f64], k: usize, link: usize, rng: &mut Rng, chain: &Value) -> Option<Vec<f64>> {
+    let n = start.len();
+    let site = o.site();
+    let detail0 = |extra: Value| json!({"objective": pr.label, "data": pr.data.iter().map(|d| jf(d)).collect::<Vec<_>>(), "start": jf(start), "hyper": o.json(), "link": link, "maxsteps": k, "chain": chain, "detail": extra});
+    let c0 = count(site);
+    let r = guard(|| lib.call(pr, start, k));
+    let j = (count(site) - c0) as usize;
+    rep.note_add("calls.optimize(adam,sgd)", 1.0);
+    let got = match r {
+        Ok(v) => {
+            rep.check("C10.optimize.no_panic", regime, true, || json!(null));
+            v
+        }
+        Err(msg) => {
+            rep.check("C10.optimize.no_panic", regime, false, || detail0(json!({"panic": msg})));
+            return None;
+        }
+    };
+    if k >= 1 && j == 0 {
+        rep.inconclusive(format!("{}: optimize ran with maxsteps {} but the step hook never ticked", regime, k));
+        return None;
+    }
+    if !rep.check("C10.optimize.shape", regime, got.len() == n && j <= k, || detail0(json!({"steps_executed": j, "returned_len": got.len()}))) {
+        return None;
+    }
+    let exact = reference(pr, o, start, k, None);
+    let perturbed = reference(pr, o, start, k, Some(rng));
+    let mut run = 0.0f64;
+    let mut dead = false;
+    for kk in 0..=j {
+        let mut d = 0.0f64;
+        for i in 0..n {
+            let e = (exact[kk][i] - perturbed[kk][i]).abs();
+            d = if e.is_nan() { f64::INFINITY } else { d.max(e) };
+        }
+        run = run.max(d);
+        let xn = inf_norm(&exact[kk]);
+        if !xn.is_finite() || xn > 1e150 {
+            dead = true;
+        }
+    }
+    let xn = inf_norm(&exact[j]);
+    let tol = 1e3 * run + 1e-13 * (1.0 + xn);
+    if !dead && tol <= 1e-6 * (1.0 + xn) {
+        let mut w = 0.0f64;
+        for i in 0..n {
+            let e = (got[i] - exact[j][i]).abs();
+            w = w.max(if e.is_nan() { f64::INFINITY } else { e / tol });
+        }
+        rep.note_max("worst_ratio.chain_link_vs_tolerance", w);
+        rep.note_add("iterates.compared", 1.0);
+        rep.seen(&format!("chain:compared:{}:link{}", o.name(), link.min(2)), 1);
+        rep.check("C10.iterate.matches_reference", regime, w <= 1.0, || detail0(json!({"steps_executed": j, "observed": jf(&got), "expected(fresh run from this start)": jf(&exact[j]), "tolerance": tol})));
+    } else {
+        rep.seen(&format!("{}:low-power", regime), 1);
+    }
+    // the same call on an object that has never run anything
+    let fresh = LibOpt::new(o);
+    if let Ok(c) = guard(|| fresh.call(pr, start, k)) {
+        rep.check("C10.deterministic.fresh_vs_reused", regime, same_bits_slice(&got, &c), || detail0(json!({"steps_executed": j, "reused": jf(&got), "fresh": jf(&c)})));
+    }
+    Some(got)
+}
+
+fn chain_case(rep: &mut Report, pr: &Problem, o: &Opt, x0: &[f64], kind: &'static str, ks: [usize; 3], rng: &mut Rng) {
+    let regime = format!("chain:{}:{}", o.name(), kind);
+    let regime = regime.as_str();
+    rep.case(regime);
+    rep.distinct(Hasher::new().s(regime).s(&o.json().to_string()).fs(x0).u(pr.dim as u64).u(ks[0] as u64).u(ks[1] as u64).fs(&pr.data[0][..pr.data[0].len().min(8)]).finish(), true);
+    let chain = json!({"kind": kind, "first_start": jf(x0), "budgets": [ks[0], ks[1], ks[2]], "first_objective": pr.label});
+    let lib = LibOpt::new(o);
+    let Some(p1) = judge_link(rep, regime, pr, o, &lib, x0, ks[0], 1, rng, &chain) else { return };
+    if !same_bits_slice(&p1, x0) {
+        rep.seen(&format!("chain:first-link-moved:{}", o.name()), 1);
+    }
+    let start2: Vec<f64> = match kind {
+        "bit-copy" => p1.iter().map(|v| f64::from_bits(v.to_bits())).collect(),
+        "other-object-result" => {
+            let other = LibOpt::new(o);
+            match guard(|| other.call(pr, x0, ks[0])) {
+                Ok(q) => {
+                    rep.check("C10.deterministic.fresh_vs_reused", regime, same_bits_slice(&p1, &q), || json!({"chain": chain, "hyper": o.json(), "link": 1, "this_object": jf(&p1), "other_object": jf(&q)}));
+                    q
+                }
+                Err(_) => return,
+            }
+        }
+        _ => p1.clone(),
+    };
+    // a different objective of the same dimension for the second link
+    let mut other_pr: Option<Problem> = None;
+    if kind == "other-objective" {
+        for _ in 0..400 {
+            let convex = rng.bool();
+            let (q, _) = obj::quadratic(rng, convex);
+            if q.dim == pr.dim {
+                other_pr = Some(q);
+                break;
+            }
+        }
+        if other_pr.is_none() {
+            rep.seen("chain:other-objective:none-of-this-dimension", 1);
+        }
+    }
+    let pr2 = other_pr.as_ref().unwrap_or(pr);
+    let Some(p2) = judge_link(rep, regime, pr2, o, &lib, &start2, ks[1], 2, rng, &chain) else { return };
+    if kind == "same-object" {
+        // the second link once more, from the same point: same call, same answer
+        if let Ok(again) = guard(|| lib.call(pr2, &start2, ks[1])) {
+            rep.check("C10.deterministic.repeat", regime, same_bits_slice(&p2, &again), || json!({"chain": chain, "hyper": o.json(), "link": 2, "start": jf(&start2), "first": jf(&p2), "second": jf(&again)}));
+        }
+    }
+    if kind == "three-links" || kind == "other-objective" {
+        let _ = judge_link(rep, regime, pr, o, &lib, &p2, ks[2], 3, rng, &chain);
+    }
+}
+
 fn random_opt(rng: &mut Rng, which: usize, rosen: bool) -> Opt {
     let lr = if rosen && which != 0 && rng.chance(0.8) { rng.log_range(1e-4, 2e-3) } else { rng.log_range(1e-4, 0.5) };
     match which {
@@ -1867,12 +2003,13 @@ fn directed(rep: &mut Report, rng: &mut Rng) {
 }
 
 pub fn run(cfg: &Cfg, rep: &mut Report) {
-    rep.rule = "Adam/SGD: random objective (convex / non-convex quadratic in 1..8 dims with eigenvalues 0.05..4 resp. -1..4, chained Rosenbrock in 2..4 dims, mean-squared-error losses of p0*exp(p1 t)[+p2], p0*sin(p1 t+p2), (p0+p1 t)/(1+(p2 t)^2) on 5..30 points) x optimizer (Adam, plain SGD, momentum, Nesterov) x hyper-parameters (stepsize log-uniform 1e-4..0.5, beta1/beta2 in (0.01,0.9999), momentum in [0,0.99]); every maxsteps 0..K is a separate optimize call on one reused optimizer object (K = 200, plus in both tiers 4 (thorough 16) long trajectories per optimizer with budgets 255..257, 511..513, 999..1001, 1023..1025, 1499, 1500, 1999, 2000, stepsize 1e-4..5e-3 and beta1/beta2/momentum in {0.9, 0.95, 0.99, 0.999, 0.9999}; thorough: 0..200 dense for all 400 cases, 12 cases dense to 2000, the others 40 random budgets k in 201..2000 each with k-1). LM: random polynomial / trigonometric (linear), exponential and logistic fits, 5..200 noisy points, 1..5 parameters, poor starts; every budget 0..200 is a separate call for n <= 12, else budgets 0..12 (0..8 for n > 100) + 10 (4) random ones + 200. Then separable quadratics whose solution components differ by up to 1e12 in size (2..6 dims, per-coordinate contraction rates stepsize*a_i in {1, .5, .75, 1.5, .25} and sometimes one slow coordinate .05/.1) for the four optimizers, same trajectory / early-stop oracle. Then linear LM problems started 1e2..1e8 solution norms away from the least-squares solution (direction components differing by up to 1e6): descent for budgets 0,1,2,3,5,..,144,200 with (eps,eps,tau), eps in {1e-6,1e-8,1e-10}, tau in {1e-2,1e-3,1e-6,1e-9}; a call that stopped before its budget lies within the distance its own stop rules imply; (1e-14,1e-14,tau) reaches the solution. Then LM at absolute scales far from 1: linear fits sum p_i c_i phi_i(x) (same polynomial / trigonometric bases, 1..5 parameters, 5..200 points) with every basis function multiplied by a power of two or ten c_i in 1e-12..1e12 (one common factor: uniform-tiny 1e-12..1e-8, uniform-huge 1e4..1e12; individual factors: mixed-tiny, mixed-huge, mixed-wide 1e-12..1e12) and the responses by sigma (parameters of order 1, unscaled responses, or a random power in 1e-12..1e12) - budgets 0,1,2,3,5,..,144,200 with tolerances adapted to the scale (descent, least-squares solution reached in the problem's own units, covariance) and budgets 0,1,2,3,8,34,200 with the default tolerances (descent, covariance); exponential fits of late-time data (x in [15..40, +5..25]) started with exp(rate*x) <= exp(-19) at every point and logistic fits started with the midpoint 19..60 rate-lengths outside the data - same budgets with the default tolerances and with eps1 = 1e-10*|gradient at the start| (descent, covariance judged scale-free against the unit-diagonal form of JtJ). Then every route to an optimizer with a given hyper-parameter setting (case i: optimizer = i mod 4 of {Adam, plain SGD, classical momentum, Nesterov}, route = (i/4) mod 8 (Adam) resp. 7 (SGD) of {new(other stepsize) + set_stepsize, Default + set_stepsize, Adam::with_stepsize, clone(), clone then set_stepsize, set_stepsize then clone, clone of an object that has already run 3 steps, a clone monitored while the original runs 1..5 steps between its calls}, objective family by (i/32) mod 6, momentum >= 0.05 for the momentum variants, defaults (0.9, 0.999, 1e-8 resp. momentum 0.9 + Nesterov) for the Default routes): budgets 0..40 dense, same trajectory / early-stop oracle, bit-for-bit comparison with an object made by new and with the original of a clone. LM routes (case k: route = k mod 6 of {Default + public fields, clone, clone then fields, fields then clone, clone of a used object, clone used while the original is used}, model by (k/6) mod 5, series of <= 60 points): the LM oracle of the main workload on the route's object plus bit-for-bit comparison with LM::new(same tolerances) and with the original. non-trivial = every case (all have a non-zero gradient at the start); distinct by (regime, hyper-parameters, start, data prefix)".into();
+    rep.rule = "Adam/SGD: random objective (convex / non-convex quadratic in 1..8 dims with eigenvalues 0.05..4 resp. -1..4, chained Rosenbrock in 2..4 dims, mean-squared-error losses of p0*exp(p1 t)[+p2], p0*sin(p1 t+p2), (p0+p1 t)/(1+(p2 t)^2) on 5..30 points) x optimizer (Adam, plain SGD, momentum, Nesterov) x hyper-parameters (stepsize log-uniform 1e-4..0.5, beta1/beta2 in (0.01,0.9999), momentum in [0,0.99]); every maxsteps 0..K is a separate optimize call on one reused optimizer object (K = 200, plus in both tiers 4 (thorough 16) long trajectories per optimizer with budgets 255..257, 511..513, 999..1001, 1023..1025, 1499, 1500, 1999, 2000, stepsize 1e-4..5e-3 and beta1/beta2/momentum in {0.9, 0.95, 0.99, 0.999, 0.9999}; thorough: 0..200 dense for all 400 cases, 12 cases dense to 2000, the others 40 random budgets k in 201..2000 each with k-1). LM: random polynomial / trigonometric (linear), exponential and logistic fits, 5..200 noisy points, 1..5 parameters, poor starts; every budget 0..200 is a separate call for n <= 12, else budgets 0..12 (0..8 for n > 100) + 10 (4) random ones + 200. Then separable quadratics whose solution components differ by up to 1e12 in size (2..6 dims, per-coordinate contraction rates stepsize*a_i in {1, .5, .75, 1.5, .25} and sometimes one slow coordinate .05/.1) for the four optimizers, same trajectory / early-stop oracle. Then linear LM problems started 1e2..1e8 solution norms away from the least-squares solution (direction components differing by up to 1e6): descent for budgets 0,1,2,3,5,..,144,200 with (eps,eps,tau), eps in {1e-6,1e-8,1e-10}, tau in {1e-2,1e-3,1e-6,1e-9}; a call that stopped before its budget lies within the distance its own stop rules imply; (1e-14,1e-14,tau) reaches the solution. Then LM at absolute scales far from 1: linear fits sum p_i c_i phi_i(x) (same polynomial / trigonometric bases, 1..5 parameters, 5..200 points) with every basis function multiplied by a power of two or ten c_i in 1e-12..1e12 (one common factor: uniform-tiny 1e-12..1e-8, uniform-huge 1e4..1e12; individual factors: mixed-tiny, mixed-huge, mixed-wide 1e-12..1e12) and the responses by sigma (parameters of order 1, unscaled responses, or a random power in 1e-12..1e12) - budgets 0,1,2,3,5,..,144,200 with tolerances adapted to the scale (descent, least-squares solution reached in the problem's own units, covariance) and budgets 0,1,2,3,8,34,200 with the default tolerances (descent, covariance); exponential fits of late-time data (x in [15..40, +5..25]) started with exp(rate*x) <= exp(-19) at every point and logistic fits started with the midpoint 19..60 rate-lengths outside the data - same budgets with the default tolerances and with eps1 = 1e-10*|gradient at the start| (descent, covariance judged scale-free against the unit-diagonal form of JtJ). Then every route to an optimizer with a given hyper-parameter setting (case i: optimizer = i mod 4 of {Adam, plain SGD, classical momentum, Nesterov}, route = (i/4) mod 8 (Adam) resp. 7 (SGD) of {new(other stepsize) + set_stepsize, Default + set_stepsize, Adam::with_stepsize, clone(), clone then set_stepsize, set_stepsize then clone, clone of an object that has already run 3 steps, a clone monitored while the original runs 1..5 steps between its calls}, objective family by (i/32) mod 6, momentum >= 0.05 for the momentum variants, defaults (0.9, 0.999, 1e-8 resp. momentum 0.9 + Nesterov) for the Default routes): budgets 0..40 dense, same trajectory / early-stop oracle, bit-for-bit comparison with an object made by new and with the original of a clone. LM routes (case k: route = k mod 6 of {Default + public fields, clone, clone then fields, fields then clone, clone of a used object, clone used while the original is used}, model by (k/6) mod 5, series of <= 60 points): the LM oracle of the main workload on the route's object plus bit-for-bit comparison with LM::new(same tolerances) and with the original. Chained calls on one Adam/SGD object (case i: optimizer = i mod 4, kind = (i/4) mod 5 of {link 2 starts from the vector link 1 returned, from a bit-for-bit copy of it, from what another object's identical first run returned, three links in a row, second link on a different objective (random quadratic of the same dimension) and a third link back on the first}, objective family and hyper-parameters drawn as in the main workload, budgets 1..40 per link): every link is compared with the reference recurrence started fresh (zero moments / velocity, step count 0) from the link's start point under the same self-calibrated tolerance, and bit for bit with a fresh object run from the same start. non-trivial = every case (all have a non-zero gradient at the start); distinct by (regime, hyper-parameters, start, data prefix)".into();
     rep.assume("objectives avoid `f64 / Var` nodes: reverse 0.2.2 differentiates c/x as -1/x (a defect of the autodiff dependency, not of compute); divisions are Var/Var and Var/f64");
     rep.assume("iterates are compared while the reference is finite (< 1e150) and the self-calibrated tolerance stays below 1e-6*(1+|x|); later budgets of such a case are counted under '<regime>:low-power' and only checked for panics, shape, early-stop rule and determinism");
     rep.assume("'stopped changing' is judged on the library's own reconstructed iterates j and j-1 (4 ulp, same sign); the library iterate j is itself tied to the reference iterate j by the iterate assertion");
     rep.assume("LM: n >= p + 2 (s^2 = RSS/(n-p) is undefined for n = p); starts with non-finite RSS are skipped; reaching the least-squares solution is demanded only when kappa(JtJ) <= 4e4 (normal equations in double precision can deliver 1e-7) with LM::new(1e-14,1e-14,tau) and 200 steps (2000 in the thorough tier for the poorly conditioned class)");
     rep.assume("routes: the hyper-parameter setting the property quantifies over is that of the object that runs, however it was made (new, Default, with_stepsize, set_stepsize, public fields of LM, Clone); an object made along any route must follow the same published recurrence and, the algorithms being deterministic, give bit-for-bit the result of an object made by new with the same setting");
+    rep.assume("chained calls: the start point of a call may be a point an earlier call of the same object returned; nothing in the published recurrences carries over between runs (moments, velocity and step count start at zero in every call), so each link is judged as a run of its own and must equal, bit for bit, what an object that has never run anything returns from the same start");
     rep.assume("LM far starts: the stop-rule bound is asserted only when the call stopped before its budget, no step was rejected (hook; every step of a linear model has gain ratio 2 against the damped model that was solved, is accepted and divides the damping by 3, so mu <= tau*max diag(JtJ), for every column scaling) and (1 + mu0*||inv(JtJ) diag(JtJ)||)*eps2 <= 0.1; other cases are counted under lm-linear:far-start:stop-bound:low-power(*)");
     rep.assume("LM scaled fits: the least-squares clause is judged in the units p_i*c2_i/sigma2 (c2, sigma2 = nearest powers of two of the column / response factors, an exact change of units) with tau' = tau*max diag(JtJ in units)/max diag(JtJ), eps1' = 1e-14*sigma2*min c2, eps2' = 1e-14*min(min unit/max unit, sqrt(min unit)), when kappa(JtJ in units) <= 4e4; the covariance clause of the scaled and plateau fits is judged on D cov D / s^2 against inv(D^-1 JtJ D^-1), D = Jacobian column norms at the returned point, when 1000(n+p)eps*kappa of that unit-diagonal form <= 1e-3 (else counted under *:cov:low-power(kappa))");
     let (ncase, kmax) = if cfg.lite { (cfg.pick(8, 8, 2), 20) } else if cfg.thorough() { (400, 2000) } else { (60, 200) };
@@ -1908,6 +2045,7 @@ pub fn run(cfg: &Cfg, rep: &mut Report) {
         LmScaled(usize),
         LmPlateau(usize),
         TrajRoute(usize),
+        TrajChain(usize),
         LmRoute(usize),
         Idle,
     }
@@ -1924,6 +2062,9 @@ pub fn run(cfg: &Cfg, rep: &mut Report) {
     // every route to an optimizer with a given hyper-parameter setting (streams 9 and 10)
     let nroute = if cfg.miri() { 2 } else if cfg.lite { 4 } else if cfg.thorough() { 300 } else { 60 };
     traj_items.extend((0..nroute).map(Item::TrajRoute));
+    // chained calls on one object: each link judged as a run of its own (stream 11)
+    let nchain = if cfg.miri() { 2 } else if cfg.lite { 4 } else if cfg.thorough() { 300 } else { 60 };
+    traj_items.extend((0..nchain).map(Item::TrajChain));
     let nroute_lm = if cfg.miri() { 0 } else { cfg.pick(36, 360, 6) };
     let mut lm_items: std::collections::VecDeque<Item> = lm_order.iter().map(|&k| Item::Lm(k)).collect();
     lm_items.extend((0..nroute_lm).map(Item::LmRoute));
@@ -2069,6 +2210,30 @@ pub fn run(cfg: &Cfg, rep: &mut Report) {
             let cs = CaseSpec { pr: &pr, opt: o, x0, kmax, budgets: (0..=kmax).collect(), regime: regime.clone(), stop_regime: regime, route };
             monitor_case(rep, &cs, rng);
         }
+        Item::TrajChain(i) => {
+            let seed = case_seed(cfg.seed, 11, i as u64);
+            rep.case_seed = seed;
+            let rng = &mut Rng::new(seed);
+            // optimizer by i mod 4, kind of chain by (i / 4) mod 5, objective family drawn
+            let which_opt = i % 4;
+            let kind: &'static str = if cfg.lite { CHAIN_KINDS[[0usize, 3, 4, 2][i % 4]] } else { CHAIN_KINDS[(i / 4) % CHAIN_KINDS.len()] };
+            let fam = rng.usize(0, 5);
+            let (pr, x0) = match fam {
+                0 => obj::quadratic(rng, true),
+                1 => obj::quadratic(rng, false),
+                2 => obj::rosenbrock(rng),
+                f => obj::least_squares(rng, f - 3),
+            };
+            let mut o = random_opt(rng, which_opt, fam == 2);
+            if let Opt::Sgd { lr, mom, nesterov } = o {
+                if which_opt >= 2 && mom < 0.05 {
+                    o = Opt::Sgd { lr, mom: 0.05 + mom, nesterov };
+                }
+            }
+            let kc = if cfg.miri() { 4 } else if cfg.lite { 8 } else { 40 };
+            let ks = [rng.usize(1, kc), rng.usize(1, kc), rng.usize(1, kc)];
+            chain_case(rep, &pr, &o, &x0, kind, ks, rng);
+        }
         Item::LmRoute(k) => {
             let seed = case_seed(cfg.seed, 10, k as u64);
             rep.case_seed = seed;
@@ -2168,6 +2333,14 @@ pub fn run(cfg: &Cfg, rep: &mut Report) {
                     rep.require(&format!("route:{}:{}", o, r), 1);
                 }
             }
+        }
+        for o in ["adam", "sgd", "momentum", "nesterov"] {
+            for kind in CHAIN_KINDS {
+                rep.require(&format!("chain:{}:{}", o, kind), 1);
+            }
+            rep.require(&format!("chain:compared:{}:link1", o), 1);
+            rep.require(&format!("chain:compared:{}:link2", o), 1);
+            rep.require(&format!("chain:first-link-moved:{}", o), 1);
         }
         if !cfg.miri() {
             for r in lm::ROUTES_LM {
